@@ -59,3 +59,10 @@ def cumsum_noskipna_timedelta(sub, case, v):
     lab = labels[row]
     # an earlier (or the same) row of the group holds a NaT
     return any(labels[i] == lab and vs["vals"][i] is None for i in range(row + 1))
+
+
+@predicate("nullable-int-with-nulls-to-float64")
+def nullable_int_float(sub, case, v):
+    """Integer value columns that contain nulls (pandas nullable, Arrow-backed pandas, polars) are converted to float64:
+    selections lose the integer dtype and values above 2^53 are rounded (silently)."""
+    return sub == "int_with_nulls" and v.kind.startswith(("intnull:dtype", "intnull:value")) and any(x is None for x in case["vals"][0]["vals"])
